@@ -16,7 +16,7 @@ Lines == ndJsonDeserialize(IOEnv.REC)
 DirOfLine(ln)  == [present |-> {ln.case.present[i] : i \in 1 .. Len(ln.case.present)}, first |-> ln.case.first, cur |-> ln.case.cur]
 CaseOfLine(ln) == CaseOf(DirOfLine(ln), ln.case.q, NoDevs)
 RenderOfLine(ln) == [kind |-> ln.case.kind, skew |-> ln.case.skew, style |-> ln.case.style, prefix |-> ln.case.prefix,
-                     unit |-> ln.case.unit, pauselen |-> ln.case.pauselen, lay |-> ln.case.lay, lists |-> ln.case.lists,
+                     unit |-> ln.case.unit, pauselen |-> ln.case.pauselen, lay |-> ln.case.lay, lists |-> ln.case.lists, seam |-> ln.case.seam,
                      pauses |-> {ln.case.pauses[i] : i \in 1 .. Len(ln.case.pauses)}]
 
 \* the search returned state n: sequence number (return value and State.SeqNum), the timestamp and the transaction
